@@ -238,6 +238,73 @@ pub fn gc_next_gc() -> Option<usize> {
   STATE.with(|s| s.borrow().as_ref().and_then(|s| s.cfg.gc.next_gc))
 }
 
+thread_local! {
+  static FREED: RefCell<Vec<u64>> = const { RefCell::new(Vec::new()) };
+  static EVICTED: RefCell<Vec<u64>> = const { RefCell::new(Vec::new()) };
+}
+
+/// An allocation was just made
+pub fn note_alloc(addr: usize, size: usize, heap: &str, kind: &str) {
+  if wants(ALLOC) || wants(GC) {
+    let id = fresh(K_OBJ, addr);
+    emit(
+      ALLOC,
+      format!("{{\"ev\":\"alloc\",\"a\":{id},\"sz\":{size},\"heap\":\"{heap}\",\"k\":\"{kind}\"}}"),
+    );
+  }
+}
+
+/// An allocation is being released by the sweep
+pub fn note_free(addr: usize) {
+  if wants(GC) {
+    if let Some(id) = forget(K_OBJ, addr) {
+      FREED.with(|f| f.borrow_mut().push(id));
+    }
+  }
+}
+
+/// A string is dropped from the intern table
+pub fn note_evict(addr: usize) {
+  if wants(GC) {
+    if let Some(id) = known(K_OBJ, addr) {
+      EVICTED.with(|f| f.borrow_mut().push(id));
+    }
+  }
+}
+
+/// A collection finished
+#[allow(clippy::too_many_arguments)]
+pub fn note_gc(n: u128, full: bool, bytes: usize, next: usize, objs: usize, boxed: usize, interned: usize, roots: usize) {
+  if wants(GC) {
+    let freed = FREED.with(|f| std::mem::take(&mut *f.borrow_mut()));
+    let list: Vec<String> = freed.iter().map(|id| id.to_string()).collect();
+    let evicted = EVICTED.with(|f| std::mem::take(&mut *f.borrow_mut()));
+    let elist: Vec<String> = evicted.iter().map(|id| id.to_string()).collect();
+    emit(
+      GC,
+      format!(
+        "{{\"ev\":\"gc\",\"n\":{n},\"full\":{full},\"freed\":[{}],\"evicted\":[{}],\"bytes\":{bytes},\"next\":{next},\"objs\":{objs},\"boxed\":{boxed},\"interned\":{interned},\"roots\":{roots}}}",
+        list.join(","),
+        elist.join(",")
+      ),
+    );
+  }
+}
+
+/// A string was requested from the intern table
+pub fn note_intern(hit: bool, addr: usize, content: &str) {
+  if wants(GC) {
+    let id = id(K_OBJ, addr);
+    emit(
+      GC,
+      format!(
+        "{{\"ev\":\"intern\",\"hit\":{hit},\"a\":{id},\"s\":{}}}",
+        json_str(content)
+      ),
+    );
+  }
+}
+
 /// Escape a string for inclusion in a json document
 pub fn json_str(s: &str) -> String {
   let mut out = String::with_capacity(s.len() + 2);
